@@ -43,6 +43,7 @@ pub fn alphabet(with_fs: bool, small: bool) -> Vec<Op> {
             Op::Install(T::F0, K::Unchecked),
             Op::Install(T::F1, K::Closure),
             Op::Install(T::B0, K::BoolF),
+            Op::Install(T::B1, K::BoolF),
             Op::Install(T::G, K::Closure),
             Op::Install(T::A0, K::AsyncV2),
         ]);
@@ -195,6 +196,9 @@ impl Ctx<'_> {
             let got = w.call(t);
             let want = self.model.expect(t);
             fnv(&mut self.res.digest_api, &got.to_le_bytes());
+            if got != want && matches!(self.model.stacks[t as usize].last(), Some(K::BoolT | K::BoolF)) {
+                self.viol("C10", "forced-boolean-wrong-value", format!("call of {t:?} (forced boolean) returned {got:#x}, requested {want:#x}"));
+            }
             if got != want {
                 let key = if self.model.alive { "latest-installation-not-in-effect" } else { "not-restored-behaviour" };
                 self.viol("C02", key, format!("call of {t:?} returned {got:#x}, reference model says {want:#x}"));
